@@ -41,7 +41,9 @@ SerDrift(e) ==
     IF ~e.tbl THEN ""
     ELSE LET refu == \E k \in 1..Len(e.cls) : e.cls[k] \in TodayRefuses(e.pos) IN
          IF refu # (e.out = "refused") THEN "today-outcome"
-         ELSE IF e.out = "emitted" /\ e.enc # TodayEnc(e.pos) THEN "today-encoding"
+         ELSE IF e.out = "emitted" /\ e.enc # TodayEnc(e.pos)
+                 /\ ~(e.pos = "form-name" /\ e.enc = "ext")      \* non-ASCII names use name*=utf-8''...
+              THEN "today-encoding"
          ELSE ""
 SerApply(e) == LET c == SerClause(e) IN [s |-> s, wl |-> 0, bad |-> c, drift |-> IF c = "" THEN SerDrift(e) ELSE ""]
 
